@@ -127,7 +127,7 @@ func renderErr(m *regexp2.Match, err error) string {
 // ---------------------------------------------------------------------------------------------
 // generators
 
-var fullAlphabet = []rune{'a', 'b', 'c', 'A', 'B', 'x', 'y', '1', '2', ' ', '-', '_', '\n', '[', '{', '@', '`', 'é', 'É', 'α', 'Α', 'я', 'k', 's', 0x212A, 0x301, 0xFFFD, 0x1F600}
+var fullAlphabet = []rune{'a', 'b', 'c', 'A', 'B', 'x', 'y', '1', '2', ' ', '-', '_', '\n', '[', '{', '@', '`', 'é', 'É', 'α', 'Α', 'я', 'k', 's', 0x212A, 0x301, 0xFFFD, 0x1F600, 0x1F601}
 
 var allOptionBits = []regexp2.RegexOptions{regexp2.IgnoreCase, regexp2.Multiline, regexp2.ExplicitCapture, regexp2.Singleline,
 	regexp2.IgnorePatternWhitespace, regexp2.RightToLeft, regexp2.ECMAScript, regexp2.RE2, regexp2.Unicode}
@@ -325,6 +325,16 @@ func biasedAst(rng *rand.Rand, cfg gen.Config) *gen.Node {
 		head = lit(w())
 	case 1: // leading strings
 		head = &gen.Node{Kind: gen.KGroup, Subs: []*gen.Node{{Kind: gen.KAlt, Subs: []*gen.Node{lit(w()), lit(w()), lit(w())}}}}
+		if rng.Intn(2) == 0 {
+			// an earlier, shorter alternative that occurs strictly inside a later, longer one
+			inner := w()
+			outer := string("xyzb1"[rng.Intn(5)]) + inner + string("xyza2"[rng.Intn(5)])
+			alts := []*gen.Node{lit(inner), lit(outer)}
+			if rng.Intn(2) == 0 {
+				alts = append(alts, lit(w()))
+			}
+			head = &gen.Node{Kind: gen.KGroup, Subs: []*gen.Node{{Kind: gen.KAlt, Subs: alts}}}
+		}
 	case 2: // set then literal at fixed distance
 		head = &gen.Node{Kind: gen.KSeq, Subs: []*gen.Node{{Kind: gen.KClass, Class: &gen.Class{Items: []gen.ClassItem{{Lo: 'a', Hi: 'c'}}}}, {Kind: gen.KDot}, lit(w())}}
 	case 3: // literal after a leading loop
